@@ -28,6 +28,14 @@ type caseRunner func(run *hx.Run, model *hx.Model, u *universe, name string, scr
 // handle runs a case, shrinks it when it fails and reports the findings.
 func handle(run *hx.Run, model *hx.Model, u *universe, rc caseRunner, name string, script []string) caseOut {
 	o := rc(run, model, u, name, script, true)
+	if o.what == whatBlocked {
+		// a verdict that rests on elapsed time: it has to show again on an immediate re-run of the same script,
+		// otherwise the machine was merely slow (a real leak or deadlock reproduces every time)
+		if o2 := rc(run, model, u, name+"/again", script, false); o2.what != whatBlocked {
+			run.Count("timing-dependent verdict not reproduced: " + whatBlocked)
+			o = o2
+		}
+	}
 	found := o.findings
 	key := o.what
 	if key == "" && !o.agree {
